@@ -102,6 +102,13 @@ class NTClass:
             raise TypeError(f"unexpected {list(kwargs)}")
         return TupleObj(vals, cls=self.cls or self.name, fields=self.fields)
 
+    @property
+    def _fields(self):
+        return self.fields
+
+    def _make(self, iterable):
+        return self(*list(iterable))
+
 
 class GenList(list):
     """What a generator function / generator expression / map / filter / zip / enumerate / reversed evaluates to: the values are
@@ -246,7 +253,8 @@ _NATIVE_METHODS = {
     bytearray: {"decode", "hex", "index", "find", "append", "extend", "pop", "startswith", "endswith", "reverse", "copy"},
 }
 
-_PURE_STDLIB = {"struct", "bisect", "operator", "math", "re", "itertools", "functools", "string", "datetime", "textwrap"}
+_PURE_STDLIB = {"struct", "bisect", "operator", "math", "re", "itertools", "functools", "string", "datetime", "textwrap", "codecs",
+                "decimal", "fractions", "binascii", "base64", "unicodedata"}
 
 
 def _suppress(*types):
@@ -259,7 +267,7 @@ def _extra_external(interp, key: str):
     table = {"collections.Counter": _c.Counter, "collections.deque": _c.deque, "collections.OrderedDict": _c.OrderedDict,
              "collections.defaultdict": _c.defaultdict, "collections.ChainMap": _c.ChainMap, "contextlib.suppress": _suppress,
              "dataclasses.replace": interp._dc_replace, "copy.copy": interp._copy, "copy.deepcopy": interp._deepcopy,
-             "typing.cast": lambda t, v: v}
+             "typing.cast": lambda t, v: v, "collections.namedtuple": _BUILTINS["namedtuple"]}
     return table.get(key)
 
 _BINOPS = {
@@ -1303,8 +1311,14 @@ class Interp:
             return ClassRef(base.cls)
         if isinstance(base, TupleObj) and attr in base.fields:
             return base[base.fields.index(attr)]
-        if isinstance(base, NTClass) and attr == "__name__":
-            return base.name
+        if isinstance(base, TupleObj) and attr in ("_asdict", "_replace", "_fields"):
+            if attr == "_fields":
+                return base.fields
+            if attr == "_asdict":
+                return lambda: dict(zip(base.fields, base))
+            return lambda **kw: TupleObj([kw.get(f, v) for f, v in zip(base.fields, base)], cls=base.cls, fields=base.fields)
+        if isinstance(base, NTClass) and attr in ("__name__", "_fields", "_make"):
+            return base.name if attr == "__name__" else getattr(base, attr)
         if isinstance(base, _NativeModel):
             if attr in base.attrs:
                 return base.attrs[attr]
@@ -1450,6 +1464,12 @@ class Interp:
         import struct as _struct
         if isinstance(base, _struct.Struct) and attr in ("unpack", "pack", "size", "format", "unpack_from", "iter_unpack"):
             return getattr(base, attr)
+        if isinstance(base, NTClass) and attr in ("_fields", "_make", "__name__"):
+            return base.name if attr == "__name__" else getattr(base, attr)
+        if type(base).__module__.split(".")[0] in ("codecs", "_codecs", "encodings", "_io", "datetime", "re", "itertools", "functools",
+                                                     "collections", "_struct", "decimal", "fractions") and not attr.startswith("__") \
+                and hasattr(base, attr):
+            return getattr(base, attr)          # an object of a pure standard-library type: CPython's own semantics apply
         raise Unsupported(f"attribute {attr} on {type(base).__name__}")
 
     def ev_Subscript(self, e, env):
